@@ -49,6 +49,9 @@ type RangePoint struct {
 	rangeStart IPv6 // the first IP address of this range in IPv6 form
 	location   rangeLocation
 	pointKind  rangePointKind
+	// resumesIPv6 marks the pseudo start point right after the IPv4 range, where the IPv6 default
+	// range "starts again"
+	resumesIPv6 bool
 }
 
 // RangePoints is an array of RangePoint, the only reason for it to exist is the String() method
@@ -170,9 +173,10 @@ func (r *Rearranger) AddLocation(ipnet *net.IPNet, locID []byte) error {
 		})
 		// add pseudo points for IPv4
 		r.points = append(r.points, &RangePoint{
-			rangeStart: afterIPv4,
-			pointKind:  pointKindStart,
-			location:   defaultIPv6Location,
+			rangeStart:  afterIPv4,
+			pointKind:   pointKindStart,
+			location:    defaultIPv6Location,
+			resumesIPv6: true,
 		})
 	} else if isDefaultIPv4 && firstIPv4.EqualToNetIP(ipnet.IP.To16()) {
 		// it is 0.0.0.0/0
@@ -328,6 +332,7 @@ func (r *Rearranger) Rearrange() RangePoints {
 			location: rangeLocation{
 				locIDIsNull: true,
 			},
+			resumesIPv6: true,
 		})
 	}
 
@@ -355,6 +360,12 @@ func (r *Rearranger) Rearrange() RangePoints {
 	for _, point := range result {
 		switch point.pointKind {
 		case pointKindStart:
+			if point.resumesIPv6 && stackTop > 0 {
+				// a declared IPv6 range (::/1, say) contains the IPv4 range: after it that range
+				// simply continues, the default range does not start again inside it
+				point.location = locationStack[stackTop]
+				continue
+			}
 			// push the location
 			stackTop++
 			if stackTop == len(locationStack) {
